@@ -742,11 +742,18 @@ class SStr:
                 return self.parts[:i], self.parts[i:]
             p = self.parts[i]
             return self.parts[:i] + [p[:off]], [p[off:]] + self.parts[i + 1:]
-        left, right = ([], self.parts) if lo is None else split_at(cut_at(lo))
         if hi is None:
+            left, right = ([], self.parts) if lo is None else split_at(cut_at(lo))
             return SStr(right)
+        # s[lo:hi] = (s[:hi])[lo:]  (both cuts may fall inside one literal piece)
         l2, _r2 = split_at(cut_at(hi))
-        return SStr(l2[len(left):]) if len(l2) >= len(left) else SStr()
+        prefix = SStr(l2)
+        if lo is None:
+            return prefix
+        d = ((hi if isinstance(hi, SInt) else SInt(hi)) - (lo if isinstance(lo, SInt) else SInt(lo))).sign()
+        if d in ('-', '<=0', '0'):
+            return SStr()
+        return prefix._slice_sym(lo, None)
 
 
 def _und(piece, lang_true, msg):
